@@ -11,7 +11,8 @@ VERIF = "/verif"
 dest = os.path.join(VERIF, "seeded", name)
 os.makedirs(dest, exist_ok=True)
 for f in ("patch.diff", "demo.py", "notes.md"):
-    shutil.copy(os.path.join(out, f), os.path.join(dest, f))
+    if os.path.abspath(out) != os.path.abspath(dest):
+        shutil.copy(os.path.join(out, f), os.path.join(dest, f))
 patch = os.path.join(dest, "patch.diff")
 
 
@@ -38,23 +39,51 @@ finally:
     sh("git -C /repo worktree remove --force %s" % scratch)
 meta["confirmed"] = (meta["demo_without_change"]["exit"] == 0 and meta.get("demo_with_change", {}).get("exit") not in (0, None)
                      and "500 passed" in meta.get("suite_with_change", "") and "25 failed" in meta.get("suite_with_change", ""))
-# run the checks against /repo with the change applied
-assert sh("git -C /repo status --porcelain").stdout.strip() == "", "/repo not clean"
-assert sh("git -C /repo apply %s" % patch).returncode == 0
+# run the checks with the change applied
+ISOLATED = os.environ.get("SEED_EVAL_ISOLATED") == "1"
 results = {}
-try:
-    for cid in [pid] + extra:
-        t0 = time.time()
-        r = subprocess.run(["./check", cid, "--tier", "quick"], cwd=VERIF, capture_output=True, text=True, timeout=3600)
-        viol = [l for l in r.stdout.splitlines() if l.startswith("VIOLATION")]
-        results[cid] = {"exit": r.returncode, "violations": viol[:3], "stderr_tail": r.stderr[-700:], "wall_s": round(time.time() - t0, 1)}
-finally:
-    sh("git -C /repo checkout -- .")
-    # regenerate tables / rebuild for the unchanged tree
-    subprocess.run(["/venv/bin/python", os.path.join(VERIF, "harness", "translate.py")], capture_output=True)
+if ISOLATED:
+    # a private copy of /verif (with its Lean build) checks a scratch worktree that carries the change: nothing in /repo
+    # or /verif is touched, so several evaluations (and other work) can run side by side
+    vcopy = "/tmp/verif-eval-" + name
+    wt = "/tmp/seedrun-" + name
+    sh("rm -rf %s; git -C /repo worktree remove --force %s" % (vcopy, wt))
+    assert sh("git -C /repo worktree add -q %s HEAD" % wt).returncode == 0
+    assert sh("git -C %s apply %s" % (wt, patch)).returncode == 0
+    assert sh("rsync -a --exclude .git --exclude replays --exclude evidence %s/ %s/ && mkdir -p %s/replays %s/evidence" % (VERIF, vcopy, vcopy, vcopy)).returncode == 0
+    try:
+        for cid in [pid] + extra:
+            t0 = time.time()
+            r = subprocess.run(["./check", cid, "--tier", "quick"], cwd=vcopy, capture_output=True, text=True, timeout=3600,
+                               env=dict(os.environ, VERIF_REPO=wt))
+            viol = [l for l in r.stdout.splitlines() if l.startswith("VIOLATION")]
+            results[cid] = {"exit": r.returncode, "violations": viol[:3], "stderr_tail": r.stderr[-700:], "wall_s": round(time.time() - t0, 1)}
+            if viol:
+                rp = viol[0].split("replay=")[1].split()[0]
+                try:
+                    results[cid]["first_replay"] = open(os.path.join(vcopy, rp)).read()[:1500]
+                except OSError:
+                    pass
+    finally:
+        sh("rm -rf %s; git -C /repo worktree remove --force %s" % (vcopy, wt))
+else:
+    assert sh("git -C /repo status --porcelain").stdout.strip() == "", "/repo not clean"
+    assert sh("git -C /repo apply %s" % patch).returncode == 0
+    try:
+        for cid in [pid] + extra:
+            t0 = time.time()
+            r = subprocess.run(["./check", cid, "--tier", "quick"], cwd=VERIF, capture_output=True, text=True, timeout=3600)
+            viol = [l for l in r.stdout.splitlines() if l.startswith("VIOLATION")]
+            results[cid] = {"exit": r.returncode, "violations": viol[:3], "stderr_tail": r.stderr[-700:], "wall_s": round(time.time() - t0, 1)}
+    finally:
+        sh("git -C /repo checkout -- .")
+        # regenerate tables / rebuild for the unchanged tree
+        subprocess.run(["/venv/bin/python", os.path.join(VERIF, "harness", "translate.py")], capture_output=True)
 meta["checks_with_change"] = results
 meta["caught_by"] = [c for c, r in results.items() if r["exit"] == 1 and r["violations"]]
-meta["what_ran"] = "harness/seed_eval.py: demo with/without the change and the pinned suite in a scratch worktree; then `./check <id> --tier quick` against /repo with the patch applied, reverted afterwards"
+meta["what_ran"] = ("harness/seed_eval.py: demo with/without the change and the pinned suite in a scratch worktree; then `./check <id> --tier quick` "
+                    + ("of a private copy of /verif against a scratch worktree carrying the patch (VERIF_REPO), both removed afterwards" if ISOLATED
+                       else "against /repo with the patch applied, reverted afterwards"))
 json.dump(meta, open(os.path.join(dest, "meta.json"), "w"), indent=1)
 print(json.dumps({k: meta[k] for k in ("confirmed", "caught_by", "suite_with_change")}, indent=1))
 for c, r in results.items():
